@@ -105,6 +105,8 @@ def close(a, b, tol=1e-6):
 
 def _close(a, b, tol=1e-6):
     import torch
+    if hasattr(a, "equals") and hasattr(b, "equals") and type(a).__module__.startswith("pandas"):
+        return bool(a.equals(b))
     if isinstance(a, bool) or isinstance(b, bool):
         return bool(a) == bool(b)
     if isinstance(a, (int, float)) and isinstance(b, (int, float)):
